@@ -33,9 +33,17 @@ structure G where
   children : Nat → List Nat
   gate : Nat → Bool
 
-abbrev Lab := Nat → Bool
+/-- a labelling.  A structure (not a bare function type) so that the compiler does not eta-expand the
+propagation functions into "label at one point" functions that would re-run the propagation at every lookup. -/
+structure Lab where
+  get : Nat → Bool
 
-def upd (v : Lab) (x : Nat) (b : Bool) : Lab := fun y => if y = x then b else v y
+instance : CoeFun Lab (fun _ => Nat → Bool) := ⟨Lab.get⟩
+
+@[ext] theorem Lab.ext {a b : Lab} (h : ∀ x, a x = b x) : a = b := by
+  cases a; cases b; congr; funext x; exact h x
+
+def upd (v : Lab) (x : Nat) (b : Bool) : Lab := ⟨fun y => if y = x then b else v y⟩
 
 /-- how a parent counts for its children -/
 def eff (g : G) (v : Lab) (p : Nat) : Bool := g.gate p || v p
@@ -68,7 +76,7 @@ termination_by f _ cs => (f, cs.length + 1)
 end
 
 /-- the labelling of a freshly generated graph -/
-def top : Lab := fun _ => true
+def top : Lab := ⟨fun _ => true⟩
 
 /-- the outer loop of `calculate_viability_and_necessity` for one of the two
 labels: visit the stored nodes in order; a status node gets its constant and,
